@@ -32,14 +32,22 @@ CONSTANTS Forms,     \* subset of {"periodic", "interval", "timer"}
           Durs,      \* action durations offered (only those < period are used)
           Over,      \* overrun scenarios: durations period + o, o \in Over, are offered as well ({} = none)
           Horizon,   \* advance_to target of phase p1
+          NoneAts,   \* call numbers offered for "this call returns None" (0 = never); form "periodic" only
           MaxK       \* tick indices offered to self-dispose / raise; dispose instants go up to Horizon + 2
 
-VARIABLES form, p, t0, first, stop, dur,     \* the scenario
+VARIABLES form, p, t0, first, stop, dur, noneAt,  \* the scenario
           phase, clock, pend, dpend, disposed, failed,   \* the machine
           ticks, n1, raised                  \* the observation
 
-vars == <<form, p, t0, first, stop, dur, phase, clock, pend, dpend, disposed, failed, ticks, n1, raised>>
-scn  == <<form, p, t0, first, stop, dur>>
+vars == <<form, p, t0, first, stop, dur, noneAt, phase, clock, pend, dpend, disposed, failed, ticks, n1, raised>>
+scn  == <<form, p, t0, first, stop, dur, noneAt>>
+
+(* The user's action as a table on state tokens: it returns state + 1, except that call number noneAt
+   (if any) returns NOTHING (NoneTok - Python's None), and a call that receives nothing returns 100.
+   "With the state returned by the previous call" includes a returned None: the next call must
+   receive None, not the state before it.                                                        *)
+NoneTok == 999
+Ret(k, st) == IF k = noneAt THEN NoneTok ELSE IF st = NoneTok THEN 100 ELSE st + 1
 
 Max(a, b) == IF a >= b THEN a ELSE b
 None == [due |-> 0, k |-> 0, st |-> 0]
@@ -57,6 +65,7 @@ Init == /\ form \in Forms /\ p \in Periods /\ t0 \in Starts
                   \cup (IF form = "periodic"
                         THEN {f \in [0..1 -> {d \in Durs : d < p} \cup {p + o : o \in Over}] : f[0] >= p \/ f[1] >= p}
                         ELSE {})
+        /\ noneAt \in (IF form = "periodic" /\ dur[0] < p /\ dur[1] < p THEN NoneAts ELSE {0})
         /\ phase = "p1" /\ clock = t0
         /\ pend = [due |-> t0 + first, k |-> 1, st |-> 0]
         /\ dpend = (stop.kind = "dispose") /\ disposed = FALSE /\ failed = FALSE
@@ -87,7 +96,7 @@ Tick == /\ phase \in {"p1", "p2"} /\ CanTick
                       ELSE /\ UNCHANGED disposed
                            \* ... and the next tick is one period after the start of this one,
                            \* with the state the action returned
-                           /\ pend' = [due |-> now + p, k |-> k + 1, st |-> pend.st + 1]
+                           /\ pend' = [due |-> now + p, k |-> k + 1, st |-> Ret(k, pend.st)]
         /\ UNCHANGED <<scn, phase, dpend, n1>>
 
 Dispose == /\ phase \in {"p1", "p2"} /\ CanDispose
@@ -108,7 +117,10 @@ Spec == Init /\ [][Next]_vars /\ WF_vars(Next)
 (* ---- the reference: what the statement says ------------------------------------------------ *)
 KBound == Horizon + 4                                \* more ticks than any scenario can have
 RefTime(k) == t0 + first + (k - 1) * p                \* "exactly at k times the period"
-RefTick(k) == <<k, RefTime(k), k - 1>>                \* state threaded from call to call: 0, 1, 2, ...
+\* state threaded from call to call: 0, 1, 2, ... ; after call noneAt returned None: None, 100, 101, ...
+RefState(k) == IF noneAt = 0 \/ k <= noneAt THEN k - 1
+               ELSE IF k = noneAt + 1 THEN NoneTok ELSE 100 + (k - noneAt - 2)
+RefTick(k) == <<k, RefTime(k), RefState(k)>>
 CountBefore(t)  == Cardinality({k \in 1..KBound : RefTime(k) < t})
 CountUpTo(t)    == Cardinality({k \in 1..KBound : RefTime(k) <= t})
 Min(a, b) == IF a <= b THEN a ELSE b
@@ -125,7 +137,7 @@ TypeOK == /\ clock \in Nat /\ pend.k \in 0..KBound /\ Len(ticks) <= KBound
 TicksExact == ~Overrun => \A i \in 1..Len(ticks) : ticks[i] = RefTick(i)
 OncePerPeriod == ~Overrun => \A i \in 1..(Len(ticks) - 1) : ticks[i + 1][2] - ticks[i][2] = p
 \* what remains true when calls overrun (and is true always):
-StateThreaded == \A i \in 1..Len(ticks) : ticks[i][1] = i /\ ticks[i][3] = i - 1
+StateThreaded == \A i \in 1..Len(ticks) : ticks[i][1] = i /\ ticks[i][3] = RefState(i)
 AtMostOncePerPeriod == \A i \in 1..(Len(ticks) - 1) : ticks[i + 1][2] >= ticks[i][2] + p
 NotBeforeGrid == \A i \in 1..Len(ticks) : ticks[i][2] >= RefTime(i)
 \* "stops once the returned disposable is disposed": no call starts after the dispose instant
@@ -144,6 +156,6 @@ Terminates == <>(phase = "done")
 (* ---- export -------------------------------------------------------------------------------- *)
 Export == phase = "done" =>
             PrintT(ToJson([scn |-> [form |-> form, p |-> p, t0 |-> t0, first |-> first, stop |-> stop,
-                                    dur |-> <<dur[0], dur[1]>>, horizon |-> Horizon, over |-> Overrun],
+                                    dur |-> <<dur[0], dur[1]>>, horizon |-> Horizon, over |-> Overrun, noneAt |-> noneAt],
                            obs |-> [ticks |-> ticks, n1 |-> n1, raised |-> raised]]))
 ================================================================================
